@@ -411,6 +411,53 @@ func TestVerifC13(t *testing.T) {
 			res.Sample(6, map[string]any{"placement": fmt.Sprint(pl), "charts": len(outputs[0])})
 		}
 	}
+	// A configuration whose counters are named like the worker's own charts of build metadata ("GOOS:{darwin}")
+	// or like their own bucket ("k" next to "k:{k}"): a chart still counts the reports that carry its bucket.
+	if p.Mine(2) {
+		cw := zzvNewWorld(base)
+		ucfg := zzvWorkerConfig()
+		ucfg.Programs[0].Counters = append(ucfg.Programs[0].Counters, telemetry.CounterConfig{Name: "GOOS:{darwin}", Rate: 1}, telemetry.CounterConfig{Name: "k", Rate: 1}, telemetry.CounterConfig{Name: "k:{k,m}", Rate: 1})
+		cw.cfg = tconfig.NewConfig(ucfg)
+		prog := ucfg.Programs[0].Name
+		day := "2024-01-07"
+		// one report, built on linux, that carries GOOS:darwin and k:k (but neither darwin as its GOOS nor the bare k)
+		r := telemetry.Report{Week: day, Config: "v1.0.0", X: 0.5, Programs: []*telemetry.ProgramReport{zzvProg(prog, ucfg.Programs[0].Versions[0], "go1.21.0", "linux", "amd64", map[string]int64{"GOOS:darwin": 1, "k:k": 1})}}
+		cw.store(day, r)
+		mc, _ := cw.merge(day)
+		code, _ := cw.chart("date=" + day)
+		res.Evaluations++
+		data, err := os.ReadFile(filepath.Join(cw.root, "charted", day+".json"))
+		var out zzvChartOut
+		if mc != 200 || code != 200 || err != nil || json.Unmarshal(data, &out) != nil {
+			res.Violate("chart-failed", fmt.Sprintf("collision configuration: merge %d chart %d err %v", mc, code, err), nil)
+		} else {
+			// expected per chart *occurrence*: the metadata chart GOOS {linux:1}; the counter chart GOOS {darwin:1};
+			// the chart k {k:1} stands for k:k, the bare counter k was never reported
+			for _, pr := range out.Programs {
+				if pr.Name != prog {
+					continue
+				}
+				seenGOOS := 0
+				for _, ch := range pr.Charts {
+					vals := map[string]float64{}
+					for _, dt := range ch.Data {
+						vals[dt.Key] += dt.Value
+					}
+					if ch.Name == "GOOS" {
+						seenGOOS++
+						if vals["darwin"] != 0 && vals["linux"] != 0 {
+							res.Violate("partition-value:chart-name-collision", fmt.Sprintf("a chart named GOOS shows %v: the only report was built on linux and carries the counter GOOS:darwin; build metadata and the configured counter GOOS:{darwin} are counted into one chart", vals), nil)
+						}
+					}
+				}
+				if seenGOOS == 1 {
+					res.Violate("partition-missing:chart-name-collision", "one chart named GOOS for both the build metadata and the configured counter GOOS:{darwin}", nil)
+				}
+			}
+		}
+		res.Class("collision-config")
+		os.RemoveAll(cw.root)
+	}
 	// The Cloud Storage backend against a stand-in for the service (the client library's own
 	// STORAGE_EMULATOR_HOST hook): buckets exist, no object does. A day that was never merged must be
 	// reported as not found there too.
